@@ -83,7 +83,8 @@ Section Sched.
     | TPut k e exp valid tie, HaveOld (Some old) =>
         if supersedes old e (tie old)
         then let '(s', ok) := set_value (st g) k e exp in
-             finish g i s' (if ok then OPut true (Some e) else OPut false (Some old)) true
+             (* recorder.AddWrite: only on this path, after a successful SetRegistryValue *)
+             finish g i (if ok then add_w s' else s') (if ok then OPut true (Some e) else OPut false (Some old)) true
         else finish g i (st g) (OPut false (Some old)) true
     | _, _ => g
     end.
@@ -312,9 +313,9 @@ Section Lin2.
     - (* Get, Idle *) apply inv_acquire; assumption.
     - (* Get, Locked *)
       assert (Hh : holds (thr g i) = true) by now rewrite Pc.
-      cbn [step]. apply inv_finish; try exact I.
+      destruct (step (st g) (Get k)) as [s' r'] eqn:SG. apply inv_finish; try exact I.
       + intros r; rewrite Pc; discriminate.
-      + unfold sstep; rewrite Op; reflexivity.
+      + unfold sstep; rewrite Op; exact SG.
       + intros _. exact (inv_holder _ _ g I i Hh).
       + discriminate.
       + intros j Hne Hj _. exact (sole_holder g i j I Hh Hne Hj).
